@@ -5,6 +5,7 @@ its callers so that rules see what the reference functions now do.  Run only whe
 import ast, json, os, sys
 root = sys.argv[1] if len(sys.argv) > 1 else '/repo'
 out = []
+sigs = {}
 for pkg in ('xtuml', 'bridgepoint'):
     for fn in sorted(os.listdir(os.path.join(root, pkg))):
         if not fn.endswith('.py') or fn.startswith(('__oal_', '__xtuml_')):
@@ -14,10 +15,14 @@ for pkg in ('xtuml', 'bridgepoint'):
         for n in tree.body:
             if isinstance(n, ast.FunctionDef):
                 out.append('%s:%s' % (mod, n.name))
+                a = n.args
+                if not (a.vararg or a.kwarg or a.kwonlyargs):
+                    sigs.setdefault('%s.%s' % (pkg, n.name), []).append([x.arg for x in a.posonlyargs + a.args])
             elif isinstance(n, ast.ClassDef):
                 for m in n.body:
                     if isinstance(m, ast.FunctionDef):
                         out.append('%s:%s.%s' % (mod, n.name, m.name))
-json.dump({'reference': 'functions of lwriemen/pyxtuml at the pinned commit (plus fix: commits)', 'functions': sorted(set(out))},
+json.dump({'reference': 'functions of lwriemen/pyxtuml at the pinned commit (plus fix: commits)', 'functions': sorted(set(out)),
+           'signatures': {k: v[0] for k, v in sorted(sigs.items()) if len(v) == 1}},
           open(os.path.join(os.path.dirname(os.path.abspath(__file__)), '..', 'sa', 'inventory.json'), 'w'), indent=0)
 print(len(set(out)), 'functions')
